@@ -41,18 +41,17 @@ def crop_model(rows, prms):
 
 
 def okta_candidates(n, total):
-    """ WMO binning of n/total in exact arithmetic -> set of acceptable oktas (a set of two only
-    at exact x.5 ties: the docstring says half-down, np.round is half-even, the property only says
-    'nearest'). """
+    """ WMO binning of n/total in exact integer arithmetic -> set of acceptable oktas (a set of two
+    only at exact x.5 ties: the docstring says half-down, np.round is half-even, the property only
+    says 'nearest'). """
     if n == 0:
         return {0}
     if n == total:
         return {8}
-    x = Fraction(8 * n, total)
-    lo = math.floor(x)
-    if x - lo == Fraction(1, 2):
+    lo, rem = divmod(8 * n, total)
+    if 2 * rem == total:
         cands = {lo, lo + 1}
-    elif x - lo < Fraction(1, 2):
+    elif 2 * rem < total:
         cands = {lo}
     else:
         cands = {lo + 1}
